@@ -74,7 +74,50 @@ def make_case(seed, i):
     for e in range(n_edits):
         r = rng.fork("edit", e)
         kind = r.weighted([("model", 5), ("import_model", 3 if state.imports else 0), ("manifest", 2), ("break_repair", 2), ("touch", 1),
-                           ("import_manifest_break_repair", 2 if state.imports else 0)])
+                           ("import_manifest_break_repair", 2 if state.imports else 0), ("subdir", 1.5), ("replace_import_dir", 1.5 if state.imports else 0)])
+        if kind == "subdir":
+            # directory life cycle inside the package directory: a new sub-directory with a model file (mkdir, then the
+            # file), a later save of that file, or the removal of the whole sub-directory again
+            mine = sorted(p for p in cur if p.startswith("/w/pkg/dir"))
+            if mine and r.chance(0.5):
+                p = r.choice(mine)
+                if r.chance(0.5):
+                    edits.append({"kind": "remove", "path": p})
+                    edits.append({"kind": "remove", "path": p.rsplit("/", 1)[0]})
+                    cur.pop(p)
+                    log.append("remove sub-directory " + p.rsplit("/", 1)[0])
+                else:
+                    cur[p] = cur[p] + "    more%d: string\n" % e
+                    edits.append({"kind": "write" if r.chance(0.5) else "atomic", "path": p, "data": cur[p], "steps": r.randint(1, 2)})
+                    log.append("save in sub-directory " + p)
+            else:
+                d = "/w/pkg/dir%d" % e
+                p = d + "/more.yml"
+                cur[p] = "ZqDir%d: !record\n  fields:\n    first: int\n" % e
+                edits.append({"kind": "mkdir", "path": d})
+                edits.append({"kind": "write", "path": p, "data": cur[p], "steps": r.randint(1, 2)})
+                log.append("new sub-directory with " + p)
+            continue
+        if kind == "replace_import_dir":
+            # a referenced package directory is replaced by a fresh copy (git checkout, unpacking an archive): the new
+            # copy is prepared next to it, the old one renamed away, the new one renamed in; a save in the main package
+            # follows (nothing watches the parent directory, so nobody can notice before that)
+            imp = r.choice(state.all_packages()[:-1])
+            base = "/w/%s" % imp.dirname
+            files = {p: c for p, c in cur.items() if p.startswith(base + "/")}
+            mfs = model_files_recursive(cur)
+            if files and mfs:
+                edits.append({"kind": "mkdir", "path": base + ".next"})
+                for p in sorted(files):
+                    if p.count("/") > base.count("/") + 1:
+                        edits.append({"kind": "mkdir", "path": (base + ".next" + p[len(base):]).rsplit("/", 1)[0]})
+                    edits.append({"kind": "write", "path": base + ".next" + p[len(base):], "data": files[p], "steps": 1})
+                edits.append({"kind": "rename", "path": base, "to": "%s.old%d" % (base, e)})
+                edits.append({"kind": "rename", "path": base + ".next", "to": base})
+                t = r.choice(mfs)
+                edits.append({"kind": "write", "path": t, "data": cur[t], "steps": 1})
+                log.append("replace directory of %s, then touch %s" % (imp.dirname, t))
+            continue
         if kind == "import_manifest_break_repair":
             # an invalid intermediate state inside a *referenced* package's manifest: an import URL that cannot
             # be fetched (unsupported scheme, empty path, unreachable git remote), saved and then corrected
@@ -116,6 +159,9 @@ def make_case(seed, i):
                 opts.append("drop_versions")
             if "python" in state.targets or "cpp" in state.targets:
                 opts.append("toggle_ndjson")
+            # the package's own directory listed as a version under a second name ("../pkg"): the same directory is then
+            # both the watched "." and a referenced package directory
+            opts.append("drop_self_version" if state.self_version else "self_version")
             op = r.choice(opts)
             if op == "remove_target":
                 t = r.choice(sorted(state.targets))
@@ -127,6 +173,10 @@ def make_case(seed, i):
                 t = r.choice(sorted(state.targets))
                 key = M.TARGET_KEYS[t]
                 state.targets[t] = dict(state.targets[t], **{key: "../out%d/%s" % (e + 2, t)})
+            elif op == "self_version":
+                state.self_version = "snapshot"
+            elif op == "drop_self_version":
+                state.self_version = ""
             elif op == "drop_versions":
                 state.versions = []
                 kinds_main = E.COMPATIBLE + E.PARTIAL + E.FREE
@@ -199,8 +249,13 @@ def final_inputs(doc):
     for ed in doc["edits"]:
         if ed["kind"] == "remove":
             cur.pop(ed["path"], None)
+            for p in [p for p in cur if p.startswith(ed["path"] + "/")]:
+                cur.pop(p)
         elif ed["kind"] in ("write", "atomic"):
             cur[ed["path"]] = ed["data"]
+        elif ed["kind"] == "rename":
+            for p in [p for p in cur if p == ed["path"] or p.startswith(ed["path"] + "/")]:
+                cur[ed["to"] + p[len(ed["path"]):]] = cur.pop(p)
     return cur
 
 
